@@ -9,7 +9,6 @@ import (
 	"fmt"
 	"net/http"
 	"net/url"
-	"os"
 	"strings"
 	"testing"
 
@@ -373,14 +372,6 @@ func runTokPart(t *testing.T, c *engine.Check, part string, sinks []tokSinkT, T,
 				})
 				if pan != "" {
 					return engine.Bad("harness", "panic", "C09/harness-panic/"+part, pan)
-				}
-				if os.Getenv("C09_TOKDUMP") != "" {
-					fmt.Fprintf(os.Stderr, "TOKDUMP %s %s %s %s %s %s\n", part, s.name, entries[entry], tn, func() string {
-						if T2 != nil {
-							return sp.Get(v, "tok2")
-						}
-						return "-"
-					}(), res.Outcome)
 				}
 				if res.Sig != "" {
 					res.Detail = fmt.Sprintf("%s=%q", s.param, clip(tok, 200)) + ifs(T2 != nil, fmt.Sprintf(" %s=%q", s.param2, clip(tok2, 200))) + ": " + res.Detail
